@@ -8,6 +8,7 @@ the implementation can are not merged.
 """
 import sys
 
+from . import modstate
 from .explore import Stats, pmap, chunks, seeded_rng, HarnessError, h64
 
 
@@ -68,6 +69,9 @@ def _expand(spec_factory, items):
             key = spec.key(impl, model) if ok is not False else None
             if ok is not False:
                 ok = spec.check(impl, model, st, (root, nhist))
+            if modstate.report_constants(st, {'root': root, 'history': [list(o) if isinstance(o, tuple) else o for o in nhist]},
+                                         'after the last operation of the history'):
+                ok = False
             if ok is False:
                 st.count('states_not_expanded_after_failure')
                 continue
